@@ -75,7 +75,7 @@ def write_datadir(path, coin, placements, header_only=(), xor_key=None, names=No
         with open(fname, "wb") as f:
             for i in idxs:
                 p = placements[i]
-                data = p.raw if p.raw is not None else p.block.ser()
+                data = p.raw if p.raw is not None else p.block.ser() + getattr(p.block, "slack", b"")
                 size = len(data) if p.size_prefix is None else p.size_prefix
                 if p.at is not None:
                     f.seek(p.at - 8)
@@ -127,6 +127,23 @@ def write_datadir(path, coin, placements, header_only=(), xor_key=None, names=No
     for h in header_only:
         pairs.append((b"b" + h.block.hash, index_value(h.height, h.status, h.ntx, h.block.header(), h.nfile, None, h.undo_pos)))
     pairs.extend(extra_keys)
+    if index_opts.get("churn") is not None:
+        # history that would matter if a reader saw it: older versions of real keys that point at ANOTHER block's position or have no
+        # position at all, and deleted 'b' records that claim an occupied height for another block's bytes
+        crng = random.Random("churn-records|%s" % index_opts["churn"])
+        real = [p for p in placements if p.indexed and p.offset is not None]
+        older, ghosts = [], []
+        if len(real) >= 2:
+            for p in crng.sample(real, min(len(real), 40)):
+                q = crng.choice(real)
+                if crng.random() < 0.5:
+                    older.append((b"b" + p.block.hash, index_value(p.height, VALID_TREE, 0, p.block.header())))
+                else:
+                    older.append((b"b" + p.block.hash, index_value(p.height, p.status, len(q.block.txs), p.block.header(), q.file, q.offset, None)))
+                g = crng.choice(real)
+                ghosts.append((b"b" + bytes(crng.getrandbits(8) for _ in range(32)),
+                               index_value(p.height, ACTIVE, len(g.block.txs), g.block.header(), g.file, g.offset, 8)))
+        index_opts["older"], index_opts["ghosts"] = older, ghosts
     write_index(os.path.join(path, "index"), pairs, **index_opts)
     return {"files": len(by_file), "records": len(pairs)}
 
@@ -167,16 +184,51 @@ def xor_file(fname, key):
         raise Inconclusive("xor_file changed the size of %s" % fname)
 
 
-def write_index(path, pairs, write_buffer=4 << 20, sessions=1, compact=False, shuffle_rng=None):
+def write_index(path, pairs, write_buffer=4 << 20, sessions=1, compact=False, shuffle_rng=None, churn=None, older=(), ghosts=()):
+    """churn (a seed): the database gets a HISTORY, as the index of a real node has one - a third of the keys are first written with an
+    older value (a record is rewritten whenever the block's status changes: header only, then data, then validity raised), keys that do
+    not belong to the final content are written and deleted again (some of them 'b' records of blocks that would win a height), spread
+    over several sessions so that old versions, tombstones and final values sit in different tables / the log. The key/value CONTENT a
+    reader sees is exactly `pairs`."""
     if os.path.exists(path):
         shutil.rmtree(path)
     pairs = list(pairs)
     if shuffle_rng is not None:
         shuffle_rng.shuffle(pairs)
+    lines = ["%s %s" % (k.hex(), v.hex()) for k, v in pairs]
+    if churn is not None:
+        import random as _random
+        crng = _random.Random("churn|%s" % churn)
+        older_extra, ghosts_extra = list(older), list(ghosts)
+        older, ghosts, dels = [], [], []
+        for k, v in pairs:
+            r = crng.random()
+            if r < 0.33:
+                # an older value of the same key: shorter (header-only layout), garbage, or another record's value
+                ov = crng.choice([v[:max(1, len(v) - crng.randint(1, 12))], bytes(crng.getrandbits(8) for _ in range(crng.randint(1, 90))),
+                                  pairs[crng.randrange(len(pairs))][1]])
+                older.append("%s %s" % (k.hex(), ov.hex()))
+        sample_vals = [v for k, v in pairs if k[:1] == b"b"]
+        for _ in range(max(3, len(pairs) // 4)):
+            gk = crng.choice([b"b", b"b", b"f", b"t"]) + bytes(crng.getrandbits(8) for _ in range(32))
+            gv = crng.choice(sample_vals) if sample_vals and crng.random() < 0.7 else bytes(crng.getrandbits(8) for _ in range(crng.randint(1, 100)))
+            ghosts.append("%s %s" % (gk.hex(), gv.hex()))
+            dels.append("del %s" % gk.hex())
+        final_keys = {k for k, _ in pairs}
+        for k, v in older_extra:
+            older.append("%s %s" % (k.hex(), v.hex()))
+        for k, v in ghosts_extra:
+            if k not in final_keys:
+                ghosts.append("%s %s" % (k.hex(), v.hex()))
+                dels.append("del %s" % k.hex())
+        crng.shuffle(ghosts)
+        lines = older + ghosts + lines + dels
+        sessions = max(sessions, 3)
+        write_buffer = min(write_buffer, 16384)
     tmp = path + ".pairs"
     with open(tmp, "w") as f:
-        for k, v in pairs:
-            f.write("%s %s\n" % (k.hex(), v.hex()))
+        for ln in lines:
+            f.write(ln + "\n")
     argv = [ldbtool(), "write", path, tmp, str(write_buffer), str(sessions)]
     if compact:
         argv.append("compact")
